@@ -8,14 +8,23 @@
 (*                 payload / no payload, each as get, set, result, error; helper calls           *)
 (*   shape         well-formed, no item, several items, unparsable JID, unknown child; carbons:  *)
 (*                 with delay, body before / after, empty wrapper, empty <forwarded/>, two copies *)
+(*   payload shape of a request to one of the library's own handlers: well-formed XML that the  *)
+(*                 handler cannot decode or can decode only in part - unexpected child elements, *)
+(*                 character data, children that look like the RESPONSE with bad values, the     *)
+(*                 payload twice; block / unblock items carrying an abuse report (XEP-0377) of   *)
+(*                 every such shape (bad attribute value, child in the wrong namespace, duplicated*)
+(*                 children, wrong child type); bits-of-binary requests (XEP-0231) with a known / *)
+(*                 unknown cid, an unparsable max-age, content that is no base64                 *)
 (* and the handler configurations (everything on; one thing changed at a time; everything off).  *)
 EXTENDS Push
 
 AllSenders == DOMAIN SenderAddr
-I1 == [jid |-> "romeo@example.org", name |-> "Romeo M.", sub |-> "both", groups |-> <<"Friends", "Lovers">>]
-I2 == [jid |-> "nurse@example.org", name |-> "", sub |-> "remove", groups |-> <<>>]
-I3 == [jid |-> "example.com", name |-> "", sub |-> "", groups |-> <<>>]
-IB == [jid |-> BadJid, name |-> "", sub |-> "", groups |-> <<>>]
+I1 == [jid |-> "romeo@example.org", name |-> "Romeo M.", sub |-> "both", groups |-> <<"Friends", "Lovers">>, rep |-> ""]
+I2 == [jid |-> "nurse@example.org", name |-> "", sub |-> "remove", groups |-> <<>>, rep |-> ""]
+I3 == [jid |-> "example.com", name |-> "", sub |-> "", groups |-> <<>>, rep |-> ""]
+IB == [jid |-> BadJid, name |-> "", sub |-> "", groups |-> <<>>, rep |-> ""]
+(* a block item with an abuse report of the given shape (Push!ReportShapes) *)
+IR(sh) == [jid |-> "spammer@example.org", name |-> "", sub |-> "", groups |-> <<>>, rep |-> sh]
 InnerOf(dir) ==
   IF dir = "sent"
   THEN [id |-> "m2", from |-> "me@example.net/other", to |-> "juliet@example.com/balcony", typ |-> "chat", body |-> "to you"]
@@ -40,10 +49,25 @@ BlockStanzas ==
   {St("iq", "set", snd, kd, "ok", "", its, "received", "", "") : snd \in {"none", "otheruser"}, kd \in {"block", "unblock"},
                                                                 its \in {<<>>, <<I1>>, <<I1, I3>>, <<I1, IB>>, <<IB, I1>>}}
   \cup {IQ("get", snd, "blocklist", "") : snd \in {"none", "otherfull"}} \cup {IQ("set", "none", "blocklist", "")}
+  \* items with an abuse report: every shape alone, and an undecodable one before / after / between plain items
+  \cup {St("iq", "set", snd, kd, "ok", "", <<IR(sh)>>, "received", "", "") : snd \in {"none", "otheruser"}, kd \in {"block", "unblock"},
+                                                                            sh \in ReportShapes \ {""}}
+  \cup {St("iq", "set", "none", "block", "ok", "", its, "received", "", "") :
+           its \in {<<I1, IR("badby")>>, <<IR("badby"), I1>>, <<IR("ok"), I3>>, <<I1, IR("sidns"), I3>>, <<IR("tworeports"), IB>>}}
 RespStanzas ==
   {IQ(typ, snd, kd, "") : typ \in {"get", "set", "result", "error"}, snd \in {"none", "ownbare", "server", "otherfull"},
                           kd \in {"ping", "version", "time", "info", "items", "extra", "foreign", "empty"}}
   \cup {IQ("get", snd, kd, nd) : snd \in {"none", "otherfull"}, kd \in {"info", "items"}, nd \in {"n1", "zz"}}
+  \* bits of binary: node = the cid asked for (KnownCid, another one, none)
+  \cup {IQ(typ, snd, "bob", KnownCid) : typ \in {"get", "set", "result", "error"}, snd \in {"none", "otherfull"}}
+  \cup {IQ("get", snd, "bob", nd) : snd \in {"none", "server"}, nd \in {"", "zz"}}
+(* requests whose payload the handler they are routed to cannot decode, or only in part *)
+ShapedStanzas ==
+  {[IQ("get", snd, kd, IF kd = "bob" THEN KnownCid ELSE "") EXCEPT !.shape = sh] :
+       snd \in {"none", "otherfull"}, kd \in {"ping", "version", "time", "info", "items", "blocklist", "bob", "extra"}, sh \in ReqShapes}
+  \cup {[IQ("get", snd, "bob", KnownCid) EXCEPT !.shape = sh] : snd \in {"none", "otherfull"}, sh \in {"badage", "badb64"}}
+  \cup {St("iq", "set", snd, "roster", sh, "v9", <<I1>>, "received", "", "") : snd \in {"none", "otheruser"}, sh \in ReqShapes \cup {"grpkid"}}
+  \cup {St("iq", "set", "none", kd, sh, "", <<I1>>, "received", "", "") : kd \in {"block", "unblock"}, sh \in {"kids", "text", "twice"}}
 Call(kind, shape, to, node, items) == St("call", "", "none", kind, shape, "", items, "received", node, to)
 ReplyShapes == {"result", "empty", "err-su", "err-forbidden", "err-inf"}
 CallStanzas ==
@@ -54,7 +78,7 @@ CallStanzas ==
   \cup {Call(kd, sh, "", "", its) : kd \in {"blockadd", "blockremove"}, sh \in ReplyShapes, its \in {<<I1>>, <<I1, I3>>}}
   \cup {Call("blockremove", sh, "", "", <<>>) : sh \in {"result", "err-forbidden"}}
 
-Alphabet == RosterStanzas \cup CarbonStanzas \cup BlockStanzas \cup RespStanzas \cup CallStanzas
+Alphabet == RosterStanzas \cup CarbonStanzas \cup BlockStanzas \cup RespStanzas \cup ShapedStanzas \cup CallStanzas
 Probe == IQ("get", "server", "ping", "")
 
 (* a small alphabet with one representative per rule, for sequences *)
@@ -65,6 +89,8 @@ Core ==
   \cup {St("message", "chat", "none", "carbon", sh, "", <<>>, "sent", "", "") : sh \in {"empty", "two"}}
   \cup {St("message", "chat", "none", "plain", "ok", "", <<>>, "received", "", "")}
   \cup {St("iq", "set", "none", kd, "ok", "", its, "received", "", "") : kd \in {"block", "unblock"}, its \in {<<>>, <<I1, I3>>}}
+  \cup {St("iq", "set", "none", "block", "ok", "", <<IR(sh)>>, "received", "", "") : sh \in {"ok", "badby"}}
+  \cup {[IQ("get", "otherfull", "version", "") EXCEPT !.shape = "own"], IQ("get", "otherfull", "bob", KnownCid)}
   \cup {IQ("get", "otherfull", kd, "") : kd \in {"ping", "version", "time", "info", "items", "blocklist", "foreign", "empty"}}
   \cup {IQ("set", "server", "ping", ""), IQ("result", "server", "ping", ""), IQ("get", "none", "info", "n1"), Probe}
   \cup {Call(kd, sh, Server, "", <<>>) : kd \in {"ping", "version"}, sh \in {"result", "err-su"}}
